@@ -195,6 +195,9 @@ def main(tier: str) -> int:
             cwd, env_extra = ambients[kind]
             if len(jobs) % 2:
                 env_extra = dict(env_extra, VERIF_REVERSE_CASES='1')
+            if len(jobs) % 8 == 5:
+                # long use: two of the cases regenerated four hundred times in that child
+                env_extra = dict(env_extra, VERIF_REGENERATE='400')
             if (len(jobs) // 2) % 2:
                 # the model comes from a file (UTF-8, as the Dezyne tools write it)
                 env_extra = dict(env_extra, VERIF_MODEL_FROM_FILE='1')
@@ -208,6 +211,7 @@ def main(tier: str) -> int:
             kind_of[(hs, jobs[-1][2])] = kind
     reference = {}
     run.require('executions_compared', 'md5_recomputed', 'cases_with_non_ascii_contents',
+                'builds_in_a_regeneration_loop_with_hashes_recomputed',
                 'cases_of_big_size', 'cases_with_an_output_name_beyond_255_characters',
                 'cases_with_non_ascii_text_in_the_model', 'children_loading_the_model_from_a_file',
                 'cases_with_relative_model_filename', 'cases_with_mixed_requires_semantics',
@@ -228,6 +232,14 @@ def main(tier: str) -> int:
             case = cases[idx]
             ident = {'hashseed': hashseed, 'order_seed': order_seed, 'pass': pas,
                      'ambient': kind_of[(hashseed, order_seed)]}
+            if 'regenerated' in out:
+                run.count('builds_in_a_regeneration_loop_with_hashes_recomputed', out['regenerated'])
+                if out['wrong_hashes']:
+                    run.violation('hash-is-not-md5-of-utf8-contents',
+                                  dict(ident, after='hundreds of regenerations in one process',
+                                       wrong=out['wrong_hashes'], of=out['regenerated']), case,
+                                  klass='hash-is-not-md5-of-utf8-contents:after-long-use')
+                continue
             if 'exc' in out:
                 run.violation(f'valid-build-failed:{out["exc"]["type"]}', dict(out['exc'], **ident),
                               case)
